@@ -284,6 +284,30 @@ def run(ctx):
     for line, mo, g in zip(lines, ctx.driver.ask(lines), impl):
         if mo.rstrip() != g:
             ctx.disagree('listener dispatch', line[-200:], mo, g)
+    roles_tie(ctx)
+
+
+def roles_tie(ctx):
+    """Tie of Model/C13Roles.lean (driver `roles.session`): random sessions of listener registrations, queued /
+    forced writes, pops, flushes, arrivals and networking-thread iterations run on a live Connection by
+    harness/gen/c13roles.py (`run_session`, instance-level instrumentation only) vs the model's trace, queue and
+    inbox; the class hierarchy sent to the model is read off the live `__bases__`."""
+    from gen import c13roles as G
+    rng = ctx.rng
+    edges = G.hier_edges(G.probe_classes())
+    reqs, want, meta = [], [], []
+    for _ in range(ctx.scale(600, 8000)):
+        rw, ri, ops = G.random_session(rng)
+        cap_w, cap_r = 300, 50         # the constants of NetworkingThread._run (not parameters of the real code)
+        reqs.append(G.request(edges, rw, ri, ops, cap_w, cap_r))
+        want.append(G.render(*G.run_session(rw, ri, ops)))
+        meta.append(len(ops))
+    for line, mo, w, nops in zip(reqs, ctx.driver.ask(reqs), want, meta):
+        ctx.case(('roles.session', line), sample={'op': 'roles.session', 'ops': nops, 'impl': w[:160]})
+        ctx.count('roles.session.ops', nops)
+        if mo != w:
+            ctx.disagree('roles.session vs a live Connection', line[:1500], mo[:800], w[:800])
+    ctx.extra['c13roles_pairs'] = ctx.extra.get('c13roles_pairs', 0) + len(reqs)
 
 
 def replay(ctx, rp_):
